@@ -7,8 +7,6 @@ From MMGen Require Import Gen_vec_vec.
 Import ListNotations.
 Local Open Scope Q_scope.
 
-Definition len_ok {A} (xs : list A) : Prop := (Z.of_nat (length xs) < 4611686018427387904)%Z.
-
 (* ---------- vec.Linspace ---------- *)
 Lemma go_range_0_seq n : go_range 0 (Z.of_nat n) = map Z.of_nat (seq 0 n).
 Proof.
